@@ -746,6 +746,132 @@ func (m modelSpec) leakArgs(env, cores map[string]string, layout string) leakArg
 	return a
 }
 
+// dotenvQuote writes v as a single-quoted dotenv value (taken literally, may span lines; `\'` stands for a quote).
+// Outside this encoding: a carriage return (the reader normalises line ends), a backslash before a quote or at the end.
+func dotenvQuote(v string) (string, bool) {
+	if strings.Contains(v, "\r") || strings.Contains(v, "\\'") || strings.HasSuffix(v, "\\") {
+		return "", false
+	}
+	return "'" + strings.ReplaceAll(v, "'", "\\'") + "'", true
+}
+
+// leakArgsIncEnv: the include-env layout.  The secrets (all of them, or a random subset when r != nil) and, for
+// cfgInc, the configs are declared in mod/compose.yaml, included with an environment of its own: `env_file:` of the
+// include entry (long syntax) or the .env of the included project directory (short syntax).  Each variable of an
+// included environment resource is defined at the top only, in the include's env file only (moved there), in both
+// (the top value wins; the shadowed one must appear nowhere) or nowhere.  The included model resolves its secrets
+// with top ∪ env file; the including model then resolves the imported secrets a second time with top alone.
+func (m modelSpec) leakArgsIncEnv(env, cores map[string]string, modes func(v string) int, longSyntax, cfgInc bool, r *rand.Rand, count func(string)) leakArgs {
+	env2, cores2 := map[string]string{}, map[string]string{}
+	for k, v := range env {
+		env2[k] = v
+	}
+	for k, v := range cores {
+		cores2[k] = v
+	}
+	a := leakArgs{Env: env2, Cores: cores2, PName: m.pname, Files: map[string]json.RawMessage{}, RawFiles: map[string]string{},
+		IncEnv: map[string]string{}, IncCores: map[string]string{}}
+	d := m.main()
+	inc := tree{}
+	incN := 20000
+	done := map[string]bool{}
+	place := func(v string) {
+		if done[v] || v == "" {
+			return
+		}
+		done[v] = true
+		mode := modes(v)
+		if _, set := env2[v]; !set {
+			if mode == 1 { // unset at the top, defined by the include only
+				incN++
+				a.IncEnv[v], a.IncCores[v] = canary(incN, c20Deco[(incN*7)%len(c20Deco)])
+				count("leak-incenv-var-inc-only")
+			} else {
+				count("leak-incenv-var-unset")
+			}
+			return
+		}
+		switch mode {
+		case 1: // moved to the include's env file
+			a.IncEnv[v], a.IncCores[v] = env2[v], cores2[v]
+			delete(env2, v)
+			delete(cores2, v)
+			count("leak-incenv-var-inc-only")
+		case 2: // both: the top value wins
+			incN++
+			a.IncEnv[v], a.IncCores[v] = canary(incN, c20Deco[(incN*5)%len(c20Deco)])
+			count("leak-incenv-var-both")
+		default:
+			count("leak-incenv-var-top-only")
+		}
+	}
+	secs, _ := d["secrets"].(tree)
+	incSecs := tree{}
+	for _, s := range m.secrets {
+		in := r == nil || r.Intn(4) != 0
+		if in {
+			incSecs[s.name] = secs[s.name]
+			delete(secs, s.name)
+			if s.kind == "environment" {
+				place(s.varn)
+			}
+		}
+		a.Secrets = append(a.Secrets, leakRes{Name: s.name, Kind: s.kind, Var: s.varn, Inc: in})
+	}
+	if len(secs) == 0 {
+		delete(d, "secrets")
+	}
+	if len(incSecs) > 0 {
+		inc["secrets"] = incSecs
+	}
+	cfgs, _ := d["configs"].(tree)
+	incCfgs := tree{}
+	for _, c := range m.configs {
+		in := cfgInc && (r == nil || r.Intn(3) != 0)
+		if in {
+			incCfgs[c.name] = cfgs[c.name]
+			delete(cfgs, c.name)
+			if c.kind == "environment" {
+				place(c.varn)
+			}
+		}
+		a.Configs = append(a.Configs, leakRes{Name: c.name, Kind: c.kind, Var: c.varn, Inc: in})
+	}
+	if len(cfgs) == 0 {
+		delete(d, "configs")
+	}
+	if len(incCfgs) > 0 {
+		inc["configs"] = incCfgs
+	}
+	if len(inc) == 0 {
+		inc["services"] = tree{"inc": tree{"image": "i"}}
+	}
+	// a variable only the include's env file defines and nobody names
+	incN++
+	a.IncEnv["INC_UNUSED"], a.IncCores["INC_UNUSED"] = canary(incN, c20Deco[(incN*3)%len(c20Deco)])
+	var b strings.Builder
+	b.WriteString("# environment of the included project\n")
+	for _, v := range sortedKeys(a.IncEnv) {
+		q, ok := dotenvQuote(a.IncEnv[v])
+		if !ok { // keep the core, drop the decoration the dotenv syntax cannot carry
+			a.IncEnv[v] = a.IncCores[v]
+			q, _ = dotenvQuote(a.IncEnv[v])
+			count("leak-incenv-value-undecorated")
+		}
+		b.WriteString(v + "=" + q + "\n")
+	}
+	if longSyntax {
+		d["include"] = []any{tree{"path": "mod/compose.yaml", "env_file": "mod/mod.env"}}
+		a.RawFiles["mod/mod.env"] = b.String()
+	} else {
+		d["include"] = []any{"mod/compose.yaml"}
+		a.RawFiles["mod/.env"] = b.String()
+	}
+	a.Files["compose.yaml"], a.Files["mod/compose.yaml"] = enc(d), enc(inc)
+	a.ConfigFiles = []string{"compose.yaml"}
+	return a
+}
+
 func sortedTreeKeys(m tree) []string {
 	l := make([]string, 0, len(m))
 	for k := range m {
@@ -800,6 +926,21 @@ func genLeak(ctx *core.Ctx) {
 					ctx.Count("leak-exh-kinds-" + layout)
 					ctx.Add("c20.leak", m.leakArgs(env, cores, layout))
 				}
+				// the include has an environment of its own: every placement of the variables × syntax × configs included too
+				if sk == "environment" || ck == "environment" {
+					for mode := 0; mode < 4; mode++ {
+						for v := 0; v < 4; v++ {
+							mode := mode
+							ctx.Count("leak-exh-kinds-include-env")
+							ctx.Add("c20.leak", m.leakArgsIncEnv(env, cores, func(vn string) int {
+								if mode == 3 { // mixed: by position
+									return int(vn[len(vn)-1]-'0') % 3
+								}
+								return mode
+							}, v&1 == 1, v&2 == 2, nil, ctx.Count))
+						}
+					}
+				}
 			}
 		}
 	}
@@ -812,8 +953,13 @@ func genLeak(ctx *core.Ctx) {
 	// random models
 	for i := 0; i < ctx.Pick(1400, 24000); i++ {
 		m, env, cores := randModel(ctx.Rng, false)
-		layout := []string{"single", "single", "override", "include"}[ctx.Rng.Intn(4)]
+		layout := []string{"single", "single", "override", "include", "include-env", "include-env"}[ctx.Rng.Intn(6)]
 		ctx.Count("leak-random-" + layout)
+		if layout == "include-env" {
+			r := ctx.Rng
+			ctx.Add("c20.leak", m.leakArgsIncEnv(env, cores, func(string) int { return r.Intn(3) }, r.Intn(2) == 0, r.Intn(2) == 0, r, ctx.Count))
+			continue
+		}
 		ctx.Add("c20.leak", m.leakArgs(env, cores, layout))
 	}
 	// malformed stream: random node kinds at resource positions, validation on or off
